@@ -6,7 +6,7 @@ from .. import core, spaces
 
 PROP = "C16"
 ALPHA = "STYKEG"
-LONG = ["KSEKTGKEYEKE", "GSKKEYEDTGRS"]
+LONG = ["KSEKTGKEYEKE", "GSKKEYEDTGRS", "KKSKKYEEEETE"]
 
 
 def SP(s):
@@ -90,6 +90,13 @@ def state_invariants(seq, sites, o, case, out):
         calls += 1
         if ka != fresh_six(exp_pseq)[0]:
             v("kappa-after-phosphorylation", "%s sites %r: %r but kappa(%s)=%r" % (seq, sites, ka, exp_pseq, fresh_six(exp_pseq)[0]))
+        # again with the object's own delta-max already cached
+        o.get_kappa()
+        ka2 = o.get_kappa_after_phosphorylation()
+        calls += 2
+        if ka2 != fresh_six(exp_pseq)[0]:
+            v("kappa-after-phosphorylation", "%s sites %r: after get_kappa() on the same object, get_kappa_after_phosphorylation()=%r "
+              "but kappa(%s)=%r" % (seq, sites, ka2, exp_pseq, fresh_six(exp_pseq)[0]))
         sty = o.get_all_phosphorylatable_sites()
         calls += 1
         if sty != [i + 1 for i, a in enumerate(seq) if a in "STY"]:
